@@ -267,4 +267,8 @@ var mutatorSeq = []string{
 	`["set","$.src.a","$.asm.b"]`,
 	`["setall","$.asm.*",0]`,
 	`["set","$.asm.k",["sum","$.src.a",1]]`,
+	// one list appended to twice: the two results are two lists
+	`["set","$.asm.l",["list",1,2,3]]`,
+	`["set","$.asm.p",["append","$.asm.l",4]]`,
+	`["set","$.asm.q",["append","$.asm.l",5]]`,
 }
